@@ -21,6 +21,52 @@ use serde_json::{Value, json};
 use std::io::{BufRead, Write};
 use yvcommon::util::{opt, opt_usize, open_in, open_out, seed};
 
+/// Characters outside ASCII cross the TLC boundary as `<U+XXXX>` (spec/Syntax.tla).
+fn decode_str(s: &str) -> String {
+    let mut out = String::with_capacity(s.len());
+    let mut rest = s;
+    while let Some(i) = rest.find("<U+") {
+        out.push_str(&rest[..i]);
+        let tail = &rest[i + 3..];
+        match tail.find('>').and_then(|j| u32::from_str_radix(&tail[..j], 16).ok().and_then(char::from_u32).map(|c| (j, c))) {
+            Some((j, c)) => {
+                out.push(c);
+                rest = &tail[j + 1..];
+            }
+            None => {
+                out.push_str("<U+");
+                rest = tail;
+            }
+        }
+    }
+    out.push_str(rest);
+    out
+}
+
+fn encode_str(s: &str) -> String {
+    if s.is_ascii() {
+        return s.to_string();
+    }
+    let mut out = String::new();
+    for c in s.chars() {
+        if c.is_ascii() {
+            out.push(c);
+        } else {
+            out.push_str(&format!("<U+{:04X}>", c as u32));
+        }
+    }
+    out
+}
+
+fn map_strings(v: &mut Value, f: &dyn Fn(&str) -> String) {
+    match v {
+        Value::String(s) => *s = f(s),
+        Value::Array(a) => a.iter_mut().for_each(|x| map_strings(x, f)),
+        Value::Object(m) => m.values_mut().for_each(|x| map_strings(x, f)),
+        _ => {}
+    }
+}
+
 fn record(kind: &str, id: &str, toks: Value, a: &run::Analysis, with_tree: bool) -> Value {
     json!({"kind": kind, "id": id, "toks": toks, "out": a.out,
            "tree": if with_tree && a.out == "ok" { a.tree.clone() } else { json!([]) },
@@ -133,13 +179,16 @@ fn replay(args: &[String]) -> i32 {
         if l.trim().is_empty() {
             continue;
         }
-        let v: Value = match serde_json::from_str(&l) {
+        let mut v: Value = match serde_json::from_str(&l) {
             Ok(v) => v,
             Err(e) => {
                 eprintln!("bad input line {ln}: {e}");
                 return 2;
             }
         };
+        if l.contains("<U+") {
+            map_strings(&mut v, &decode_str);
+        }
         lines += 1;
         let toks: Vec<Tok> = v["toks"].as_array().map(|a| a.iter().map(Tok::from_wire).collect()).unwrap_or_default();
         let exp = v["exp"].as_str().unwrap_or("un");
@@ -246,6 +295,9 @@ fn replay(args: &[String]) -> i32 {
                 muts += 1;
                 let wire: Vec<Value> = conc.iter().map(|t| t.wire.clone()).collect();
                 let mut r = record("toks", &format!("m{ln}.{m}"), Value::Array(wire), &a, true);
+                // back to the wire encoding for Trace_Syntax
+                map_strings(&mut r["toks"], &encode_str);
+                map_strings(&mut r["tree"], &encode_str);
                 r["text"] = json!(text);
                 r["printed"] = json!(a.printed);
                 r["portable"] = json!(false);
@@ -357,7 +409,8 @@ fn soup_string(rng: &mut StdRng) -> String {
         "||", "<", ">", "<<", "<<-", ">>", "<&", ">|", "<>", "<<<", "#", "~", "=", ":", "-", "+", "?", "%", "!", "*", "a",
         "x", "1", "2", "if", "then", "else", "elif", "fi", "for", "in", "do", "done", "while", "until", "case", "esac",
         "function", "[[", "]]", "$'", "\\c", "\\x", "\\u", "\\0", "EOF", "<(", ">(", "2>(", "3<(", "2147483647>",
-        "2147483648>", "4294967294>", "4294967295<", "4294967296>>", "1234567890123456789012345678901234567890>", "\u{a0}", "\u{3000}", "\r", "\u{0}", "é", "𝄞",
+        "²", "٣", "½", "①", "Ω", "$²", "$٣", "$½", "$①", "$é", "${é}", "${²}", "é=1", "é()", "²>", "٣<", "\\²",
+        "\\é", "<<É", "\u{2028}", "\u{85}", "2147483648>", "4294967294>", "4294967295<", "4294967296>>", "1234567890123456789012345678901234567890>", "\u{a0}", "\u{3000}", "\r", "\u{0}", "é", "𝄞",
     ];
     let n = rng.gen_range(0..40);
     let mut s = String::new();
